@@ -14,6 +14,9 @@ LEVEL = "exploration"
 PROPS = ["C07"]
 
 
+IDPOOL = [2, 3, 5, 7, 11, 13, 100, 4095, 65536, 7000001] + list(range(200, 240))
+
+
 def gen_script(rng, cid, cfg, length):
     """A client's own event stream; replies are addressed symbolically ('whatever I await from svc')."""
     f = gen.Fields(rng, boundary=0.2)
@@ -45,6 +48,11 @@ def gen_script(rng, cid, cfg, length):
         out.append({"a": "password", "text": f.token() if rng.random() < 0.5 else f.password(True)})
         for sv in svcs:
             out.append({"a": "reply", "svc": sv, "text": "OK"})
+    if svcs and rng.random() < 0.3:
+        # the id comes back (same client slot re-used by the server) while the previous holder's query is unanswered; the
+        # late answer to the PREVIOUS holder arrives afterwards and must not touch the newcomer
+        out += [{"a": "password", "text": f.password(True)}, {"a": "reannounce"}, {"a": "password", "text": f.password(True)},
+                {"a": "stale", "svc": rng.choice(svcs), "text": gen.reply_text(rng, rng.choice(["OKacct", "NO", "MORE", "OK"]))}]
     tail = rng.choice(["hurry", "disconnect", "registered", "timeout", "reannounce", "registered", "disconnect"])
     out.append({"a": tail})
     if tail in ("hurry", "timeout"):
@@ -95,6 +103,12 @@ def to_event(s, cid, act, script):
         if not st or act["svc"] not in st["awaiting"]:
             return None
         return {"t": "reply", "svc": act["svc"], "tag": st["tag"], "text": act["text"]}
+    if a == "stale":
+        old = [t for (c, t, svs) in s.old_tags if c == cid]
+        st = s.open.get(cid)
+        if not old or (st and st["tag"] == old[-1]):
+            return None
+        return {"t": "reply", "svc": act["svc"], "tag": old[-1], "text": act["text"]}
     return None
 
 
@@ -144,6 +158,12 @@ def run_merge(b, cfg, scripts, order, audit_every=50):
     try:
         nsteps = 0
         for cid in order:
+            if isinstance(cid, str):
+                # "R<k>": a SIGUSR1 reload to service table k - a global event at a fixed place of every client's own script
+                s.do({"t": "reload", "services": [list(x) for x in run_merge.tables[int(cid[1:])]]})
+                sent_lines.append(None)
+                nsteps += 1
+                continue
             k = pos[cid]
             pos[cid] += 1
             act = scripts[cid][k]
@@ -173,7 +193,8 @@ def run_merge(b, cfg, scripts, order, audit_every=50):
     except Exception:
         s.kill()
         raise
-    run_merge.last_io = (sent_lines, all_out + [l for l in r.tail if not l.startswith("#verif")], s.config)
+    run_merge.last_io = ([l for l in sent_lines if l is not None], all_out + [l for l in r.tail if not l.startswith("#verif")], s.config)
+    run_merge.had_reload = any(l is None for l in sent_lines)
     return conv, audits, r, nsteps
 
 
@@ -207,18 +228,48 @@ def _worker(a):
     b, cfgj, seed, nclients, length, nmerges = a["build"], a["config"], a["seed"], a["nclients"], a["length"], a["nmerges"]
     rng = random.Random(seed)
     cfg = proto.Config.from_json(cfgj)
-    ids = rng.sample([2, 3, 5, 7, 11, 13, 100, 4095, 65536, 7000001], nclients)
+    ids = rng.sample(IDPOOL, nclients)
     scripts = {cid: gen_script(rng, cid, cfg, length) for cid in ids}
+    # optional: SIGUSR1 reloads that switch the service table (names keep their protocol) at fixed places of the merged order;
+    # the solo reference of a client then has the reloads at the same places of ITS script
+    if a.get("early_comeback"):
+        # the first client of the run (serial 1) asks its service and is replaced much later, when many others have been announced,
+        # by a newcomer on the same id that asks the same service; then the answer to the FIRST holder arrives
+        x = ids[0]
+        sv0 = cfg.services[0][0]
+        scripts[x] = [{"a": "announce", "ip": "192.0.2.1", "port": 1024}, {"a": "password", "text": "+x alice pw1"},
+                      {"a": "reannounce"}, {"a": "password", "text": "+x bob pw2"},
+                      {"a": "stale", "svc": sv0, "text": rng.choice(["OK alice", "NO bad password", "MORE prove it"])},
+                      {"a": "host", "name": "h.example"}, {"a": "ident", "name": "id"}, {"a": "nick", "name": "nn"}, {"a": "userinfo", "user": "u", "real": "r"},
+                      {"a": "reply", "svc": sv0, "text": "OK bob"}] + \
+                     [{"a": "reply", "svc": n, "text": "OK"} for n, p_ in cfg.services[1:]] + [{"a": "hurry"}, {"a": "registered"}]
+    tables = gen.reload_tables(rng, cfg.services, extra=1, n=2) if a.get("reload") else None
+    run_merge.tables = tables
     res = {"viol": [], "stats": {"script_sets": 1, "merges_run": 0, "distinct_interleavings": 0, "client_conversations_compared": 0,
                                  "audits": 0, "steps": 0, "conversation_lines": 0}, "inconc": [], "hash": vcommon.h([cfgj, seed]), "hashes": []}
     ref = {}
+    solo_cache = {}
+
+    def solo(cid, splits=()):
+        """Reference conversation of one client alone; splits = numbers of its own actions that precede each reload."""
+        key = (cid, tuple(splits))
+        if key not in solo_cache:
+            order1 = []
+            prev = 0
+            for ri, k in enumerate(splits):
+                order1 += [cid] * (k - prev) + ["R%d" % ri]
+                prev = k
+            order1 += [cid] * (len(scripts[cid]) - prev)
+            conv, audits, r, n = run_merge(b, cfg, {cid: scripts[cid]}, order1, audit_every=0)
+            solo_cache[key] = (conv[cid], r)
+        return solo_cache[key]
     for cid in ids:
-        conv, audits, r, n = run_merge(b, cfg, {cid: scripts[cid]}, [cid] * len(scripts[cid]), audit_every=0)
+        c_, r = solo(cid)
         if not r.clean():
             res["inconc"].append("daemon unclean in a solo run: %s" % (r.describe(),))
             return res
-        ref[cid] = conv[cid]
-        res["stats"]["conversation_lines"] += sum(len(x[1]) for x in conv[cid] if isinstance(x[1], list))
+        ref[cid] = c_
+        res["stats"]["conversation_lines"] += sum(len(x[1]) for x in c_ if isinstance(x[1], list))
     merges = a.get("merges")
     seen = set()
     for mi in range(nmerges):
@@ -250,10 +301,41 @@ def _worker(a):
                     slots += [cid] * n
                     rem[cid] -= n
             order = slots
+        if a.get("early_comeback"):
+            x = ids[0]
+            rest = [c for c in order if c != x]
+            nx = len(scripts[x]) - 2
+            cutp = len(rest) * 2 // 3
+            tailp = rest[cutp:]
+            for _ in range(nx):
+                tailp.insert(rng.randrange(len(tailp) + 1), x)
+            order = [x, x] + rest[:cutp] + tailp
+        refs_now = ref
+        if tables and merges is None:
+            order = list(order)
+            cuts = sorted(rng.sample(range(len(order) // 4, max(len(order) // 4 + 2, len(order) * 3 // 4)), 2 if rng.random() < 0.4 else 1))
+            for ri, c in enumerate(cuts):
+                order.insert(c + ri, "R%d" % ri)
+            refs_now = {}
+            for cid in ids:
+                sp = []
+                cnt = 0
+                for x in order:
+                    if x == cid:
+                        cnt += 1
+                    elif isinstance(x, str):
+                        sp.append(cnt)
+                c_, r_ = solo(cid, sp)
+                if not r_.clean():
+                    res["inconc"].append("daemon unclean in a solo run with reloads: %s" % (r_.describe(),))
+                    return res
+                refs_now[cid] = c_
+            res["stats"]["merges_with_reload"] = res["stats"].get("merges_with_reload", 0) + 1
         hsh = vcommon.h(order)
         if hsh in seen:
             continue
         seen.add(hsh)
+        run_merge.tables = tables
         conv, audits, r, n = run_merge(b, cfg, scripts, order)
         if "sample" not in res:
             res["sample"] = {"services": cfg.services, "scripts": {str(c): [short(x) for x in scripts[c]] for c in ids}, "interleaving": order,
@@ -268,7 +350,7 @@ def _worker(a):
             if not au or not au[0].startswith("#verif audit ok"):
                 res["viol"].append(("C07", "table-audit", "table-audit", "request table audit failed: %s (order %s)" % (au, order),
                                     {"config": cfgj, "seed": seed, "order": order}))
-        if mi % 2 == 0:
+        if mi % 2 == 0 and not run_merge.had_reload:
             sent_lines, lock_out, cfg_ = run_merge.last_io
             why = batch_replay_differs(b, sent_lines, lock_out, cfg)
             res["stats"]["batch_replays"] = res["stats"].get("batch_replays", 0) + 1
@@ -278,11 +360,11 @@ def _worker(a):
                 break
         for cid in ids:
             res["stats"]["client_conversations_compared"] += 1
-            if conv[cid] != ref[cid]:
-                diff = first_diff(ref[cid], conv[cid])
+            if conv[cid] != refs_now[cid]:
+                diff = first_diff(refs_now[cid], conv[cid])
                 text = ("client %d's conversation differs between running alone and interleaved with clients %s\n%s\nscript of client %d: %s\ninterleaving: %s" % (
                     cid, [c for c in ids if c != cid], diff, cid, [short(x) for x in scripts[cid]], order))
-                res["viol"].append(("C07", "conversation", "conversation:" + diff_class(ref[cid], conv[cid]), text,
+                res["viol"].append(("C07", "conversation", "conversation:" + diff_class(refs_now[cid], conv[cid]), text,
                                     {"config": cfgj, "seed": seed, "order": order, "nclients": nclients, "length": length}))
                 break
         if res["viol"]:
@@ -319,7 +401,7 @@ def run(chk, tier, scale=1.0):
         rng = random.Random("c07/%d/%d" % (chk.seed, i))
         cfg = pcommon.random_config(rng, want_class=(rng.random() < 0.3))
         jobs.append(dict(build=b, config=cfg.to_json(), seed=rng.randrange(1 << 30), nclients=rng.choice([3, 4, 5, 6]), length=12,
-                         nmerges=8 if tier == "quick" else 40))
+                         nmerges=8 if tier == "quick" else 40, reload=(i % 3 == 1 and len(cfg.services) > 0)))
     # all 70 merges of two 4-event scripts
     for i in range(2 if tier == "quick" else 12):
         rng = random.Random("c07m/%d/%d" % (chk.seed, i))
@@ -330,6 +412,12 @@ def run(chk, tier, scale=1.0):
         rng = random.Random("c07b/%d/%d" % (chk.seed, i))
         cfg = pcommon.random_config(rng, want_class=False)
         jobs.append(dict(build=b, config=cfg.to_json(), seed=rng.randrange(1 << 30), nclients=10, length=10, nmerges=3 if tier == "quick" else 10))
+    # many announcements (serials run into two hex digits) with ids that come back while a previous holder's answer is still under way
+    for i in range(6 if tier == "quick" else 60):
+        rng = random.Random("c07s/%d/%d" % (chk.seed, i))
+        cfg = proto.Config([("login.svc", "login")] + ([("combo.svc", "combined")] if i % 2 else []), timeout=3600)
+        jobs.append(dict(build=b, config=cfg.to_json(), seed=rng.randrange(1 << 30), nclients=rng.choice([18, 24, 30]), length=9, nmerges=3 if tier == "quick" else 8,
+                         early_comeback=(i % 3 != 2)))
     res = vcommon.pmap(_worker_wrap, jobs)
     for r in res:
         for hsh in r["hashes"] or [r["hash"]]:
@@ -345,7 +433,9 @@ def run(chk, tier, scale=1.0):
                 "symbolically to 'what I await from service s'; each script is run alone (reference conversation) and in random / round-robin / bursty order-preserving "
                 "interleavings; the projection of the daemon's output on each client (its id, X lines carrying its id; serial renumbered) grouped by the client's own events "
                 "must equal the reference, and no line about a client may appear in another client's step; every second interleaving is also written to a fresh daemon in ONE piece "
-                "(no sync lines) and must give the same stdout; guarded table audit every 50 steps; "
+                "(no sync lines) and must give the same stdout; guarded table audit every 50 steps; a third of the sets has 1-2 SIGUSR1 reloads switching the service table at a fixed "
+                "place of every client's script (solo reference with the reloads at the same places); scripts may re-use their id while a query of the previous holder is unanswered "
+                "and then receive the late answer to the previous holder; sets of 18-30 clients drive the serials into two hex digits; "
                 "a case = one interleaving of one script set (distinct by hash); non-trivial = conversations were compared")
     chk.require("distinct_interleavings", 300 * min(1.0, scale))
     chk.require("client_conversations_compared", 1000 * min(1.0, scale))
@@ -356,7 +446,7 @@ def _worker_wrap(a):
     if a.get("all_merges"):
         # enumerate every order-preserving merge of two scripts of 4 actions (announce + 3)
         rng = random.Random(a["seed"])
-        ids = rng.sample([2, 3, 5, 7, 11, 13, 100, 4095, 65536, 7000001], 2)
+        ids = rng.sample(IDPOOL, 2)
         merges = []
         for pos in itertools.combinations(range(8), 4):
             merges.append([ids[0] if k in pos else ids[1] for k in range(8)])
